@@ -82,6 +82,21 @@ NOTES = {
  "C18-12": "round 4; first missed; LIFT-RESULT added (every return of the item callback derives from the wrapped function)",
  "C18-13": "round 4; first missed; CAPABILITY-WIDENING added",
  "C19-11": "round 4; first missed; COUNT-ONCE now requires one unconditional update per counter handed to an aggregate",
+ # round 5: sibling-pattern changes (port to an operator what a sibling does / remove a load-bearing asymmetry)
+ "C03-16": "round 5 (re-based after the repairs)", "C08-15": "round 5 (re-based); NOT reported: GroupBy announces a new group before pushing its first value (dropped when the consumer finishes on the announce) - which notification a value gives rise to, value level",
+ "C10-14": "round 5 (re-based); first missed; NO-TRYLOCK-SKIP extended to the subjects and the teardowns they register", "C10-15": "round 5 (re-based)",
+ "C05-14": "round 5; NOT reported: TakeUntil's notifier only raises a flag, the completion waits for the next source value (aligned with SkipUntil) - when the completion comes, definition level", "C08-14": "round 5; NOT reported: same TakeUntil change, seeded under C08",
+ "C05-15": "round 5; first missed; INNER-TERMINATED added", "C07-16": "round 5; first missed; INNER-TERMINATED added",
+ "C05-16": "round 5; NOT reported: SampleWhen flushes the pending value when the ticker completes - which values a sampler emits, definition level",
+ "C06-14": "round 5; first missed by C06 (reported by C15); LOOP-STOPS-AFTER-ERROR joined C06", "C06-16": "round 5; first missed by C06 (reported by C05/C14/C15); SEQUENTIAL-INNER-GUARD joined C06",
+ "C07-14": "round 5; first missed by C07 (reported by C01/C02/C13); MULTI-PRODUCER=>SAFE joined C07", "C07-15": "round 5; first missed by C07 (reported by C01/C02/C10); SUBJECT-BROADCAST-LOCKED joined C07",
+ "C08-16": "round 5; NOT reported: WindowWhen's windows become bounded unicast subjects (size 0): values that arrive before the consumer subscribes are dropped instead of parked - a buffer size, value level",
+ "C11-15": "round 5; NOT reported: the connectable's disconnect hook completes the previous subject (observers receive a Complete the source never sent) - which terminal a disconnect yields, definition level",
+ "C13-14": "round 5; first missed by C13 (reported by C10); overwrites of sync objects held in fields count as writes in CONSISTENT-PROTECTION/types",
+ "C14-14": "round 5; first missed by C14 (reported by C03/C16/C17); TEARDOWN-ALL-RUN joined C14",
+ "C14-16": "round 5; NOT reported: StartWith rewritten as ConcatWith(source)(Of(prefixes...)): inherits ConcatAll's wait inside the outer callback (the known C14 finding) through composition - the new body is one call, nothing structural to see in StartWith itself",
+ "C17-14": "round 5; first missed by C17 (reported by C13); CLOSE-ONCE/send-from-teardown added", "C17-15": "round 5; first missed by C17 (reported by C13); CLOSE-ONCE/rebound added",
+ "C17-16": "round 5; NOT reported: FromChannel(nil) returns Empty (a nil channel never closes, the observable should stay open) - a degenerate input, value level",
 }
 
 rows = []
